@@ -272,7 +272,8 @@ func (e *Engine) VerifyFunc(fn *ssa.Function, blk *Block, props []string) (err e
 		kept := e.Obls[:start:start]
 		dropped := 0
 		for _, ob := range e.Obls[start:] {
-			keep := false
+			// loop invariants carry the focused facts around loops: always kept
+			keep := ob.Kind == "inv-init" || ob.Kind == "inv-pres" || ob.Kind == "vacuous" || ob.Kind == "bind"
 			for _, p := range pats {
 				if strings.Contains(ob.Name, p) {
 					keep = true
